@@ -594,7 +594,11 @@ class IterativeIASolverBaseClass(IASolverBaseClass):
         # Method called before the _updateW method
         self._before_initialize_W_func()
 
-        self._W = self._closed_form_ia_solver.W
+        # The iterative algorithms expect receive filters with unit norm
+        self._W = np.empty(self.K, dtype=np.ndarray)
+        for k in range(self.K):
+            Wk = self._closed_form_ia_solver.W[k]
+            self._W[k] = Wk / np.linalg.norm(Wk, 'fro')
 
     def _initialize_F_and_W_from_alt_min(self, Ns: IntOrIntSequence,
                                          P: np.ndarray) -> None:
@@ -1185,7 +1189,9 @@ class MinLeakageIASolver(IterativeIASolverBaseClass):
         for k in range(self.K):
             Qk = self.calc_Q(k)
             [V, _] = leig(Qk, self.Ns[k])
-            Uk[k] = V
+            # The filters must have a unit Frobenius norm (with more than
+            # one stream the matrix of eigenvectors has norm sqrt(Ns))
+            Uk[k] = V / np.linalg.norm(V, 'fro')
         return Uk
 
     def _calc_Uk_all_k_rev(self) -> np.ndarray:
@@ -1202,7 +1208,9 @@ class MinLeakageIASolver(IterativeIASolverBaseClass):
         for k in range(self.K):
             Qk_rev = self.calc_Q_rev(k)
             [V, _] = leig(Qk_rev, self.Ns[k])
-            Uk_rev[k] = V
+            # The precoders must have a unit Frobenius norm so that full_F
+            # respects the power constraint
+            Uk_rev[k] = V / np.linalg.norm(V, 'fro')
         return Uk_rev
 
     def _updateF(self) -> None:
